@@ -294,7 +294,7 @@ func macroBlProcess(exp Exporter) {
 	case "enum":
 		exp.BeginEnumList(id)
 	case "table":
-		tableinfo := ctx.Table.info[ctx.Table.Count]
+		tableinfo := ctx.tableData()
 		if tableinfo.Title != "" {
 			ctx.Table.TitCount++
 			ctx.Table.titScope = true
@@ -552,7 +552,7 @@ func macroElProcess(exp Exporter) {
 			exp.EndTableCell()
 			exp.EndTableRow()
 		}
-		exp.EndTable(ctx.Table.info[ctx.Table.Count])
+		exp.EndTable(ctx.tableData())
 		ctx.Table.titScope = false
 		ctx.Table.scope = false
 		ctx.Table.Cell = 0
